@@ -347,6 +347,13 @@ func TestC06(t *testing.T) {
 			}
 		}
 	}
+	// the same boundary with a key update behind it: two records beyond 2^16-2 in the old epoch, the key update,
+	// two records in the new epoch (small numbers) — and then every arrival order, so that old-epoch records with
+	// numbers around 2^16 arrive while the receiver's current epoch has only seen single-digit numbers
+	for _, w := range []int{0, 4} {
+		sc := scen{V: v13, W: w, N: 4, PresetSeq: 1<<16 - 2, KeyUpdateAfter: 2}
+		groups = append(groups, group{ID: fmt.Sprintf("boundary/%s/L4", sc), Sc: sc, Seqs: allSeqs(4, 4, nil)})
+	}
 	params["boundary"] = "13-direct and 12-psk, sender counter preset to 2^16-2, 2^17-2, 2^8-2, 2^32-2 (primer record delivered), then every arrival sequence with repetitions of length 3 (thorough 4) over the next 3 (4) records, W default and 4; DTLS 1.3 only at 2^16-2 and 2^8-2 (later boundaries are unreachable by one jump of the counter)"
 	// smallest window size whose bitmap does not fit the "multiple of 64 / at most half a word" shapes:
 	// every arrival sequence of length 3 over 3 records (keeps reproducers of window-size findings minimal)
